@@ -1,6 +1,6 @@
 import Driver.Util
-import GqlgenVerif.Model.Http
-open GqlgenVerif GqlgenVerif.Http GqlgenVerif.Gen.HttpStatus
+import GqlgenVerif.Model.HttpHist
+open GqlgenVerif GqlgenVerif.Http GqlgenVerif.HttpHist GqlgenVerif.Gen.HttpStatus
 /-! Line protocol driver for C09.
 
     c   <srv> <method> <up> <rct> <accept> <dec> <param> <doc> <opName> <vars> <exec>   → `<status> <ct> <body> <exec>`
@@ -8,6 +8,10 @@ open GqlgenVerif GqlgenVerif.Http GqlgenVerif.Gen.HttpStatus
     st  <codes>                                                                          → `<statusFor> <statusForGraphQLResponse>`
     ct  <explicit> <accept>                                                              → `<determineCT> <Spec.negotiate>`
     guard                                                                                → kinds GET.Do lets through
+    seq <srv>|<world>|<event>|<event>…                                                   → `<resp>|<resp>…` (history model)
+        world  = `id=P` | `id=I<ops>` | `id=V<ops>` joined by `,` (what gqlparser makes of query text `id`; 0 = "")
+        event  = the 11 tokens of `c` (doc / param / opName are ignored) + `<query id> <~ | =operationName> <~ | hash id>`
+    pq                                                                                   → parseQuery's steps as regenerated
 -/
 namespace Driver.C09
 
@@ -97,8 +101,50 @@ def parseResp (t : List String) : Option Resp :=
     pure { status := st, ctype := if ct = "none" then none else some ct, body := parseBody body, executed := ex }
   | _ => none
 
+def parseWorldEntry (s : String) : Option (Nat × Option (List Op) × Bool) :=
+  match s.splitOn "=" with
+  | [id, d] => do
+    let id ← id.toNat?
+    if d = "P" then pure (id, none, false)
+    else
+      let valid := d.startsWith "V"
+      let rest := (d.drop 1).toString
+      let ops ← if rest = "" then some [] else (rest.splitOn ":").mapM parseOp
+      pure (id, some ops, valid)
+  | _ => none
+
+def parseWorld (s : String) : Option World :=
+  if s = "-" then some { parses := fun _ => none, valid := fun _ => false } else do
+    let es ← (s.splitOn ",").mapM parseWorldEntry
+    pure { parses := fun q => ((es.find? (·.1 = q)).map (·.2.1)).join,
+           valid := fun q => ((es.find? (·.1 = q)).map (·.2.2)).getD false }
+
+def parseEv (s : String) : Option (List Transport × Ev) :=
+  let t := s.splitOn " "
+  match parseReq (t.take 11), t.drop 11 with
+  | some (srv, r), [q, opn, h] => do
+    let q ← q.toNat?
+    let h ← if h = "~" then some none else h.toNat?.map some
+    pure (srv, { req := { r := r, query := q, opNameSent := if opn = "~" then none else some (opn.drop 1).toString, apqHash := h },
+                 keep := fun _ => true })
+  | _, _ => none
+
+def showStep : GqlgenVerif.Gen.HttpHistory.PQStep → String
+  | .getHit => "getHit" | .parse => "parse" | .retParseErr => "retParseErr" | .retNoOp => "retNoOp"
+  | .validate => "validate" | .retInvalid => "retInvalid" | .add => "add" | .retOk => "retOk"
+
+def seqStep (line : String) : String :=
+  match line.splitOn "|" with
+  | srv :: world :: evs =>
+    match parseSrv srv, parseWorld world, evs.mapM parseEv with
+    | some srv, some w, some evs => "|".intercalate ((run w srv St.init (evs.map (·.2))).map showResp)
+    | _, _, _ => "bad-op"
+  | _ => "bad-op"
+
 def step (line : String) : String :=
+  if line.startsWith "seq " then seqStep (line.drop 4).toString else
   match line.splitOn " " with
+  | ["pq"] => " ".intercalate (GqlgenVerif.Gen.HttpHistory.parseQueryProg.map showStep)
   | "c" :: rest =>
     match parseReq rest with
     | some (srv, r) => showResp (serve srv r)
